@@ -210,6 +210,15 @@ def Node.activeSubState (root : Node) (id : Nat) : Option Nat :=
     | some (.compo _ _ _ _ _ a _ _ _ _) => a
     | _ => none
 
+/-- `activeSubState(id)` restricted to region heads (its documented domain); `none` for plain states. -/
+def Node.regionSubState (root : Node) (id : Nat) : Option Nat :=
+  match root.pathTo id with
+  | some p => match root.follow p with
+    | some (.leaf ..) => none
+    | some _ => root.activeSubState id
+    | none => none
+  | none => none
+
 def maskOf (n : Nat) (f : Nat → Bool) : Nat :=
   (List.range n).foldl (fun m i => if f i then m ||| (1 <<< i) else m) 0
 
@@ -217,7 +226,7 @@ def maskOf (n : Nat) (f : Nat → Bool) : Nat :=
 def Node.observe (root : Node) (stateCount : Nat) (guard : Bool) : Obs :=
   { active := maskOf stateCount root.isActive
     resumable := maskOf stateCount root.isResumable
-    subs := (List.range stateCount).map root.activeSubState
+    subs := (List.range stateCount).map root.regionSubState
     pend := if guard then
       some (maskOf stateCount root.isPendingEnter, maskOf stateCount root.isPendingExit,
             maskOf stateCount root.isPendingChange) else none }
